@@ -25,8 +25,8 @@ from . import tlc
 SPEC_DIR = Path(os.environ.get("VERIF_ASSIGNORS_SPEC", str(tlc.SPEC)))
 
 KINDS = ("range", "roundrobin", "sticky")
-ASSIGN_TIMEOUT = 5.0        # seconds; a normal call takes well under 50 ms
-ASSIGN_TIMEOUT_CONFIRM = 30.0
+ASSIGN_TIMEOUT = 4.0         # seconds; a normal call takes well under 50 ms
+ASSIGN_TIMEOUT_CONFIRM = 16.0
 
 
 class FakeCluster:
@@ -75,15 +75,23 @@ def reset_sticky():
     s._latest_partition_movements = None
 
 
-def member_metadata(kind: str, topics: list, prev_bytes: bytes | None = None, gen: int | None = None):
+def member_metadata(kind: str, topics: list, prev_bytes: bytes | None = None, gen: int | None = None,
+                    states: dict | None = None, member: str | None = None):
     """What the group leader sees for one member: the member's own assignor
     produces the metadata (`metadata()` after `on_assignment` of the bytes it
     received in the previous SyncGroup), it is encoded for JoinGroup and decoded
-    by the leader (group_coordinator._perform_assignment)."""
+    by the leader (group_coordinator._perform_assignment).
+
+    The sticky assignor keeps its state in class attributes, i.e. per process.
+    Each member is its own process: its state (`states[member]`, carried from
+    round to round of a chain) is installed before and saved after, and the class
+    is left reset."""
     c = classes()
     cls = c["sticky" if kind.startswith("sticky") else kind]
     if cls is c["sticky"]:
-        reset_sticky()              # this member's own process state
+        reset_sticky()
+        if states is not None and member in states:
+            cls.member_assignment, cls.generation = states[member]
         if prev_bytes is not None:
             cls.on_assignment(c["proto"].ASSIGNMENT.decode(prev_bytes))
             if gen is not None:
@@ -91,6 +99,8 @@ def member_metadata(kind: str, topics: list, prev_bytes: bytes | None = None, ge
     md = cls.metadata(list(topics))
     wire = md if isinstance(md, bytes) else md.encode()
     if cls is c["sticky"]:
+        if states is not None and member is not None:
+            states[member] = (cls.member_assignment, cls.generation)
         reset_sticky()
     return c["proto"].METADATA.decode(wire)
 
@@ -191,7 +201,7 @@ def assignable(parts, subs) -> int:
 # ---------------------------------------------------------------------------
 # C14 cases
 
-def assign_case(topics, parts, subs, *, enum, kinds=KINDS, ud=None, gen=None, tag=""):
+def assign_case(topics, parts, subs, *, enum, kinds=KINDS, ud=None, gen=None, tag="", states=None):
     """Run the assignors on one input.  `ud`: {member: assignment bytes of the
     previous round} -> an extra sticky run "stickyud" with that user data."""
     out, fail, objs = {}, {}, {}
@@ -204,7 +214,11 @@ def assign_case(topics, parts, subs, *, enum, kinds=KINDS, ud=None, gen=None, ta
         else:
             fail[k] = res
     if ud is not None:
-        md = {m: member_metadata("sticky", subs[m], ud.get(m), gen if m in ud else None) for m in subs}
+        if states is not None:
+            for m in [x for x in states if x not in subs]:
+                del states[m]                      # that member's process is gone
+        md = {m: member_metadata("sticky", subs[m], ud.get(m), gen if m in ud else None, states, m)
+              for m in subs}
         st, res = call_assign("sticky", parts, md)
         if st == "ok":
             out["stickyud"] = raw_of(res)
@@ -295,9 +309,13 @@ def fresh_member(rng, subs):
             return m
 
 
-def sticky_round(parts, subs, prev_bytes: dict, gen):
-    """One sticky rebalance: members present in prev_bytes report it as user data."""
-    md = {m: member_metadata("sticky", subs[m], prev_bytes.get(m), gen if m in prev_bytes else None)
+def sticky_round(parts, subs, prev_bytes: dict, gen, states: dict | None = None):
+    """One sticky rebalance: members present in prev_bytes report it as user data.
+    `states`: per-member assignor state carried along a chain (updated in place)."""
+    if states is not None:
+        for m in [x for x in states if x not in subs]:
+            del states[m]                          # that member's process is gone
+    md = {m: member_metadata("sticky", subs[m], prev_bytes.get(m), gen if m in prev_bytes else None, states, m)
           for m in subs}
     return call_assign("sticky", parts, md)
 
@@ -317,7 +335,7 @@ S_CLAUSES = (("step", "class"), ("same", "changed"), ("departed", "moved-between
              ("departed", "not-redistributed"), ("join", "moved-between-old"))
 
 
-def name_clauses(cfg: str, bad_cases: list, limit=120, pairs=None) -> list[list[tuple[str, str]]]:
+def name_clauses(cfg: str, bad_cases: list, limit=5000, pairs=None) -> list[list[tuple[str, str]]]:
     """For each rejected case the list of (k, clause) that fail."""
     bad_cases = bad_cases[:limit]
     res = [[] for _ in bad_cases]
